@@ -79,6 +79,36 @@ def repetition_caps(prog, rep, RID):
         if v is None:
             rep.violation(RID, key, f"`{kw}` is not passed to the walk base class: every edge is capped at the default 1 repetition", g.loc(sup[0]))
             continue
+        if cname in ("kLeastAbsErrorsCycles", "kMinPathErrorCycles"):
+            # The cap of an edge is the largest flow value reachable from / reaching it.  The value of an ignored edge bounds nothing: it must not enter
+            # the maxima (edges_to_ignore handed to the computation), and the ignored edges themselves need a bound that does not come from a flow
+            # value of their own (a structural one, derived from the caps of the other edges).
+            src = v
+            if isinstance(v, _ast.Name):
+                defs_ = [st for st in _ast.walk(g.node) if isinstance(st, _ast.Assign) and any(isinstance(t, _ast.Name) and t.id == v.id for t in st.targets)]
+                if len(defs_) != 1:
+                    raise AnalysisError(f"{cname}.__init__: cannot tell how `{v.id}` (the repetition caps) is defined")
+                src = defs_[0].value
+            if not (isinstance(src, _ast.Call) and isinstance(src.func, _ast.Attribute) and src.func.attr == "compute_edge_max_reachable_value"):
+                rep.violation(RID, key, f"max_edge_repetition_dict = `{norm(v)[:80]}` is not the tabled provider ({why}): walks that must repeat an edge more often are cut off", g.loc(sup[0]))
+                continue
+            ign = _kwarg(src, "edges_to_ignore", 1)
+            overrides = [st for st in _ast.walk(g.node) if isinstance(st, _ast.Assign) and isinstance(st.targets[0], _ast.Subscript) and isinstance(v, _ast.Name) and
+                         norm(st.targets[0].value) == v.id and any("edges_to_ignore" in norm(t_) for t_, pol_ in _enclosing_tests(g.node, st) if pol_)]
+            if ign is None or "edges_to_ignore" not in norm(ign):
+                rep.violation(RID, key + ":ignored-values", f"`{norm(src)[:90]}` computes the largest reachable flow value over *all* edges: the value of an ignored edge caps the traversals "
+                              "of the edges around it and of the edge itself (s->a 1, a->b F ignored, b->c 3, c->a 3, b->d 3, d->a 3, a->t 1, k=1: optimum 0 for every F, 4 / slack 1 "
+                              "reported unless F >= 6; in node-weighted mode every original edge is such an edge)", g.loc(src))
+            elif not overrides:
+                rep.violation(RID, key + ":ignored-values", "the ignored edges keep the cap computed from flow values (0 once they do not enter the maxima - no walk can use them): they need a "
+                              "bound of their own, derived from the caps of the non-ignored edges", g.loc(src))
+            else:
+                ov = norm(_subst(overrides[0].value, _lsd(g.node)))
+                if "number_of_edges()" in ov and "sum(" in ov:
+                    rep.ok(RID, key, "largest non-ignored flow value reachable from / reaching the edge; ignored edges get |E| + the sum of the other caps", g.loc(src))
+                else:
+                    raise AnalysisError(f"{cname}.__init__: cannot classify the cap `{ov[:80]}` given to ignored edges")
+            continue
         from rules.common import canonical_value, canonical_text
         txt = canonical_value(g.node, v)
         want = canonical_text(pat)
